@@ -230,6 +230,9 @@ def c20_plan(seed, k):
             count = None
             if kind == "drop" and nreq == 1: count = rng.choice([None, 1, 2, 2])
             if kind == "fewer": kind = rng.choice(["fewer", "fewer:0", "fewer:1", "fewer:2"])
+            # "a table without durations" in every shape: key absent, null, empty table, one empty row (seeded change C20-r5: a const
+            # json document does not grow on [0], the read of the missing row is out of bounds)
+            if kind == "nodurations": kind = rng.choice(["nodurations", "nodurations:null", "nodurations:empty", "nodurations:emptyrow", "nodurations:emptydur"])
             steps.append(dict(fault=kind, where=where, count=count, reqs=idx)); prev_fault = True
         else:
             steps.append(dict(fault="healthy", where="both", count=None, reqs=idx)); prev_fault = False
